@@ -27,6 +27,18 @@
 (*                   behaves: an end of stream seen by the peer is only     *)
 (*                   explained by its own drop, a wrong ASN it presented,   *)
 (*                   or a Close call that has begun                         *)
+(*   ConvergesEventually  the sender loop (run) does not end before Close   *)
+(*                   has been called: a session whose loop has returned     *)
+(*                   makes no further connection attempt and sends no later *)
+(*                   Set - it can never converge again (hook "run.exit"     *)
+(*                   logged before "close.call")                            *)
+(*   StreamWellFormed what the peer reads is a sequence of whole, well-     *)
+(*                   formed messages: a header at every message boundary,   *)
+(*                   every UPDATE decodable, its attribute block exactly    *)
+(*                   ORIGIN, AS_PATH, NEXT_HOP (= the address the peer sees *)
+(*                   the session coming from), LOCAL_PREF iff iBGP,         *)
+(*                   optionally COMMUNITIES (aliases C16.SessionFraming,    *)
+(*                   C16.SessionUpdateWellFormed)                           *)
 (*   (Converges includes AS_PATH: an UPDATE whose AS_PATH is not the        *)
 (*   intended one IN THE WIDTH THE PEER ANNOUNCED ON THAT CONNECTION -      *)
 (*   4 octets iff its OPEN carried capability 65 - enters the table with    *)
@@ -165,6 +177,27 @@ AttrValue(b, p, code) ==
             ELSE IF b[p + 1] = code THEN SubSeq(b, p + hl, p + hl + ln - 1)
             ELSE AttrValue(b, p + hl + ln, code)
 
+(* the attribute type codes of the block, in order; <<-2>> if the block is malformed             *)
+RECURSIVE AttrCodes(_, _)
+AttrCodes(b, p) ==
+  IF p > Len(b) THEN <<>>
+  ELSE IF p + 2 > Len(b) THEN <<-2>>
+  ELSE LET ext == (b[p] \div 16) % 2 = 1 IN
+       IF ext /\ p + 3 > Len(b) THEN <<-2>>
+       ELSE LET hl == IF ext THEN 4 ELSE 3
+                ln == IF ext THEN b[p + 2] * 256 + b[p + 3] ELSE b[p + 2] IN
+            IF p + hl + ln - 1 > Len(b) THEN <<-2>>
+            ELSE LET rest == AttrCodes(b, p + hl + ln) IN
+                 IF rest = <<-2>> THEN rest ELSE <<b[p + 1]>> \o rest
+
+UpdWellFormed(o) ==
+  LET base == IF o.ibgp THEN <<1, 2, 3, 5>> ELSE <<1, 2, 3>>
+      cs == AttrCodes(o.attrs, 1) IN
+  /\ cs \in {base, base \o <<8>>}
+  /\ AttrValue(o.attrs, 1, 1) = <<0>>            \* ORIGIN IGP
+  /\ AttrValue(o.attrs, 1, 3) = o.nh             \* NEXT_HOP: 4 octets, the session's own address on this connection
+  /\ (o.ibgp => Len(AttrValue(o.attrs, 1, 5)) = 4)
+
 AsnOctets(n, width) ==
   IF width = 4 THEN <<0, 0, (n \div 256) % 256, n % 256>> ELSE <<(n \div 256) % 256, n % 256>>   \* n < 65536 here
 
@@ -176,7 +209,8 @@ AsPathOK(o) == AttrValue(o.attrs, 1, 2) = IntendedAsPath(o)
 
 ApplyMsg(o) ==
   CASE o.t = "upd" -> /\ tabs' = {t \in tabs : ~(t.c = o.c /\ t.r = o.r)}
-                                 \cup {[c |-> o.c, r |-> o.r, a |-> IF AsPathOK(o) THEN o.a ELSE "?aspath"]}
+                                 \cup {[c |-> o.c, r |-> o.r,
+                                        a |-> IF ~UpdWellFormed(o) THEN "?malformed" ELSE IF AsPathOK(o) THEN o.a ELSE "?aspath"]}
                       /\ ann' = ann \cup {[c |-> o.c, r |-> o.r]}
     [] o.t = "wdr" -> /\ tabs' = {t \in tabs : ~(t.c = o.c /\ t.r \in Range(o.rs))}
                       /\ ann' = ann
@@ -193,12 +227,16 @@ PeerFails(o) ==
          \cup If(FirstEstab(o.c) \/ {x.r : x \in Range(o.req)} \subseteq AnnouncedOn(o.c), "C17.FullResend")
     [] o.k = "msg" -> If(o.c \notin wrongc, "C17.RefuseWrongASN") \cup If(o.c \notin lateOpen, "C17.QuietAfterClose")
                       \cup (IF o.t = "upd" /\ ~AsPathOK(o) THEN {"C16.SessionAsPathWidth"} ELSE {})
+                      \cup (IF o.t = "bad" \/ (o.t = "upd" /\ ~UpdWellFormed(o))
+                            THEN {"C17.StreamWellFormed", "C16.SessionUpdateWellFormed"} ELSE {})
+                      \cup (IF o.t = "badframe" THEN {"C17.StreamWellFormed", "C16.SessionFraming"} ELSE {})
     [] o.k = "eof" -> IF o.c \in wrongc \/ o.c \in deadc \/ closeCall THEN {}
                       ELSE {"C17.NoSpuriousReset"} \cup (IF o.c \in pipec THEN {"C16.SessionSpuriousReset"} ELSE {})
     [] o.k = "accept" -> If(~closeRet, "C17.QuietAfterClose")
     [] o.k = "hook" ->
          (IF o.st /\ o.closed /\ o.pt \in SentEvents \cup {"connected"} THEN {"C17.QuietAfterClose"} ELSE {})
          \cup (IF o.pt = "connected" /\ lastAcc \in wrongc THEN {"C17.RefuseWrongASN"} ELSE {})
+         \cup (IF o.pt = "run.exit" /\ ~closeCall THEN {"C17.ConvergesEventually"} ELSE {})
     [] OTHER -> {}
 
 ----------------------------------------------------------------------------
@@ -282,7 +320,10 @@ Info(o) ==
         cap65 |-> IF o.k = "msg" /\ o.t = "upd" THEN o.cap65 ELSE FALSE,
         aspath |-> IF o.k = "msg" /\ o.t = "upd" THEN AttrValue(o.attrs, 1, 2) ELSE <<>>,
         pipe |-> IF o.k = "eof" THEN o.c \in pipec ELSE FALSE,
-        why |-> IF o.k = "eof" THEN o.why ELSE ""]
+        why |-> IF o.k = "eof" THEN o.why ELSE "",
+        t |-> IF o.k = "msg" THEN o.t ELSE "",
+        codes |-> IF o.k = "msg" /\ o.t = "upd" THEN AttrCodes(o.attrs, 1) ELSE <<>>,
+        nexthop |-> IF o.k = "msg" /\ o.t = "upd" THEN AttrValue(o.attrs, 1, 3) ELSE <<>>]
 
 (* printed once per state: the failing predicates of line i; "done" proves every line was consumed *)
 Judge ==
